@@ -340,3 +340,56 @@ def check_scaling(ctx, F, rule="E-SAT.scale"):
     ctx.ob(rule + ".shl", rule + ".shl:oxidd_core::util::num", True, "%d bodies of oxidd_core::util::num scanned for checked_shl/shr" % m2,
            nontrivial=False)
     return n
+
+
+def check_scale_pairing(ctx, F, rule="E-SAT.scale.pair"):
+    """For floating-point counts `sat_count_edge` starts the recursion from 2^(vars - scale_exp) instead of 2^vars when
+    there are many variables and multiplies the result by 2^scale_exp afterwards.  The two adjustments must be taken
+    under the *same* condition (HIR of the two `if` conditions identical), the first must subtract `scale_exp` from
+    `vars` and the second shift by `scale_exp`: otherwise the count is off by a factor 2^scale_exp for exactly the
+    inputs (vars >= 1022) no test reaches."""
+    import json
+    from lib import hirutil as H
+    n = 0
+    for fid, h in sorted(F.hir.items()):
+        if not (fid.endswith("::sat_count_edge") and fid.split("::")[0] in ("oxidd_rules_bdd", "oxidd_rules_zbdd") and "::mt::" not in fid):
+            continue
+
+        def norm(x):
+            if isinstance(x, dict):
+                return {k: norm(v) for k, v in x.items() if k not in ("ln", "lid", "exp", "rty", "ga", "hty", "ty")}
+            if isinstance(x, list):
+                return [norm(v) for v in x]
+            return x
+
+        def mentions(x, name):
+            return any(y.get("k") == "path" and y.get("res") == "local" and y.get("n") == name for y in H.walk(x))
+        downs, ups = [], []
+        for x in H.walk(h["body"]):
+            if x.get("k") != "if" or "e" not in x:
+                continue
+            if not mentions(x["c"], "scale_exp"):
+                continue
+            t = x["t"]
+            if any(y.get("k") == "bin" and y.get("o") == "-" and mentions(y.get("l"), "vars") and mentions(y.get("r"), "scale_exp")
+                   for y in H.walk(t)):
+                downs.append(x)
+            elif any(y.get("k") == "bin" and y.get("o") == "<<" and mentions(y.get("r"), "scale_exp") for y in H.walk(t)):
+                ups.append(x)
+        if not downs and not ups:
+            continue
+        n += 1
+        ok = len(downs) == 1 and len(ups) == 1 and json.dumps(norm(downs[0]["c"]), sort_keys=True) == json.dumps(norm(ups[0]["c"]), sort_keys=True)
+        # the condition must require a non-zero scale and enough variables
+        if ok:
+            c = downs[0]["c"]
+            ops = [y.get("o") for y in H.walk(c) if y.get("k") == "bin"]
+            ok = ">=" in ops
+        ctx.ob(rule, "%s:%s" % (rule, F.nice(fid)), ok,
+               "%s (%s): %s" % (F.nice(fid), F.where(fid),
+                                "scales down by vars - scale_exp and up by scale_exp under one and the same condition (vars >= scale_exp ..)"
+                                if ok else
+                                "the scale-down of the terminal value (vars - scale_exp) and the scale-up of the result (<< scale_exp) are "
+                                "not taken under the same condition `vars >= scale_exp` (%d / %d sites): the count is "
+                                "off by 2^scale_exp for large variable counts" % (len(downs), len(ups))))
+    return n
